@@ -140,6 +140,12 @@ New(c) ==
                    [op |-> "new", res |-> s, src |-> s, twin |-> HasTwin(St, r)],
                    [op |-> "new", res |-> s, r |-> r])
 
+(* a construction that raises in the user's __post_init__, after ASTNode.__post_init__ registered the node:
+   the half-built node is garbage, nothing may stay behind *)
+NewFails ==
+    /\ "Picky" \in GenClasses
+    /\ Finish(St, held, [op |-> "new_fails", res |-> NoSlot, src |-> NoSlot], [op |-> "new_fails"])
+
 (* the changes a replace can make: nothing, one init property, one child field *)
 Changes(o) ==
     LET c == obj[o].c IN
@@ -178,8 +184,10 @@ Replace(o) ==
    back, so nothing changes -- also for the pinned code, which pops and restores the same entry. *)
 ReplaceFails(o) ==
     /\ o \in held
-    /\ \E why \in {"unknown_field", "non_init_field"} :
+    /\ \E why \in {"unknown_field", "non_init_field", "post_init"} :
          /\ why = "non_init_field" => \E f \in Range(PropFields[obj[o].c]) : ~IsInit[obj[o].c][f]
+         \* the user's own __post_init__ raises after the new node was built and registered (class Picky)
+         /\ why = "post_init" => obj[o].c = "Picky"
          /\ Finish(St, held, [op |-> "replace_fails", res |-> o, src |-> o],
                    [op |-> "replace_fails", src |-> o, why |-> why])
 
@@ -350,9 +358,10 @@ Init == /\ obj = <<>>
         /\ blobs = <<>>
 
 AllOps == {"new", "replace", "replace_fails", "dcreplace", "dup", "detach", "detach_self", "drop", "hold",
-           "ser", "deser", "forget", "dropall", "observe"}
+           "ser", "deser", "forget", "dropall", "observe", "new_fails"}
 
 Next == \/ "new" \in Ops /\ \E c \in GenClasses : New(c)
+        \/ "new_fails" \in Ops /\ NewFails
         \/ \E o \in Slots : \/ "replace" \in Ops /\ Replace(o)
                             \/ "replace_fails" \in Ops /\ ReplaceFails(o)
                             \/ "dcreplace" \in Ops /\ DcReplace(o)
@@ -391,7 +400,7 @@ IdDeterministic == (ret.op \in Creating /\ ~Collide /\ ~ret.twin)
                       => obj[ret.res].id = <<IdKeyOf(obj, obj[ret.res]), 0>>
 
 (* a replace() that raises leaves the registry (and everything else) exactly as it was *)
-FailFrame == [][ret'.op \in {"replace_fails", "observe"} => UNCHANGED <<obj, held, reg>>]_vars
+FailFrame == [][ret'.op \in {"replace_fails", "new_fails", "observe"} => UNCHANGED <<obj, held, reg>>]_vars
 
 ---------------------------------------------------------------------------
 (* C10: no operation changes an existing node; only registry membership (and the spec's own
